@@ -48,7 +48,9 @@ Next ==
   /\ LET a0 == A!AbsInit(CfgOf(Rec[i]))
          \* built without the `enable` feature, set_reporter() must not start anything (C16)
          a1 == IF ~Rec[i].cfg.enabled /\ "sr_threads" \in DOMAIN Rec[i].cfg /\ Rec[i].cfg.sr_threads # 0
-               THEN A!Viol(a0, "C16", "set_reporter-started-a-thread", Rec[i].cfg.sr_threads) ELSE a0
+               THEN A!Viol(a0, "C16", "set_reporter-started-a-thread", Rec[i].cfg.sr_threads)
+               ELSE IF ~Rec[i].cfg.enabled /\ "flush_threads" \in DOMAIN Rec[i].cfg /\ Rec[i].cfg.flush_threads # 0
+               THEN A!Viol(a0, "C16", "flush-started-a-thread", Rec[i].cfg.flush_threads) ELSE a0
          r == Consume(a1, i + 1)
          v == r[1].viol IN
      /\ \A k \in DOMAIN v : Show(Rec[i].run, v[k])
